@@ -1126,26 +1126,50 @@ def check_candidates(prog: Program, res: Result) -> None:
     rets = [n for n in ast.walk(fi.node) if isinstance(n, ast.Return)]
     if len(rets) < 1:
         raise AnalysisError("_find_candidates: no return")
+    def freshness(e, depth=0):
+        """'fresh' | 'alias' | 'unknown' for the set an expression denotes."""
+        if depth > 8:
+            return "unknown"
+        if isinstance(e, ast.Constant) and e.value is None:
+            return "fresh"                      # no set at all on this arm
+        if isinstance(e, (ast.SetComp, ast.BinOp, ast.Set)):
+            return "fresh"
+        if isinstance(e, ast.Call):
+            cn = call_name(e) or ""
+            if cn in ("set", "frozenset") and len(e.args) <= 1:
+                return "fresh"
+            if isinstance(e.func, ast.Attribute) and e.func.attr in (
+                    "copy", "intersection", "difference", "union",
+                    "symmetric_difference"):
+                return "fresh"
+            return "unknown"
+        if isinstance(e, ast.IfExp):
+            ks = {freshness(e.body, depth + 1), freshness(e.orelse, depth + 1)}
+            return "alias" if "alias" in ks else (
+                "unknown" if "unknown" in ks else "fresh")
+        if isinstance(e, (ast.Subscript, ast.Attribute)):
+            return "alias"                      # an element of a table
+        if isinstance(e, ast.Name):
+            if e.id in fi.params():
+                return "alias"
+            defs = [n for n in ast.walk(fi.node) if isinstance(n, ast.Assign)
+                    and any(norm(t) == e.id for t in n.targets)]
+            if not defs:
+                return "unknown"
+            ks = {freshness(d.value, depth + 1) for d in defs}
+            return "alias" if "alias" in ks else (
+                "unknown" if "unknown" in ks else "fresh")
+        return "unknown"
     for r in rets:
         v = r.value
         inst = f"{fi.short}: return {norm(v)}"
-        fresh = False
-        if isinstance(v, ast.Name):
-            defs = [n for n in ast.walk(fi.node) if isinstance(n, ast.Assign)
-                    and any(norm(t) == v.id for t in n.targets)]
-            fresh = bool(defs) and all(
-                (isinstance(d.value, ast.Call) and call_name(d.value) in (
-                    "set", "frozenset") and len(d.value.args) <= 1)
-                or isinstance(d.value, ast.SetComp)
-                or (isinstance(d.value, ast.Call) and isinstance(
-                    d.value.func, ast.Attribute) and d.value.func.attr in (
-                    "copy", "intersection", "difference", "union"))
-                or isinstance(d.value, ast.BinOp) for d in defs)
-        elif isinstance(v, (ast.SetComp, ast.BinOp)) or (
-                isinstance(v, ast.Call) and call_name(v) == "set"):
-            fresh = True
-        if fresh:
+        k = freshness(v)
+        if k == "fresh":
             res.ok("R-CAND-FRESH", inst, fi.loc(r))
+        elif k == "unknown":
+            res.unrecognised("R-CAND-FRESH", inst, fi.loc(r),
+                             f"where the returned set `{norm(v)}` is built "
+                             "is not followed")
         else:
             res.bad("R-CAND-FRESH", inst, fi.loc(r),
                     f"{fi.short} returns `{norm(v)}` which may alias a "
@@ -1849,7 +1873,14 @@ def check_feasibility(prog: Program, res: Result) -> None:
         and re.search(rf"g2_stereo(\[|\.get\(){v}\b", txt) is not None,
         "descriptors of u and of v",
         "does not read params.g1_stereo[u] and params.g2_stereo[v]")
-    req("len(s2) != len(s1)" in txt or "len(s1) != len(s2)" in txt,
+    # either as an early exit on != or as a conjunct == of the result
+    conj = any(isinstance(n, ast.BoolOp) and isinstance(n.op, ast.And)
+               and any(norm(v_) in ("len(s2) == len(s1)",
+                                    "len(s1) == len(s2)")
+                       for v_ in n.values)
+               and any("all(" in norm(v_, 200) for v_ in n.values)
+               for n in ast.walk(fi.node))
+    req("len(s2) != len(s1)" in txt or "len(s1) != len(s2)" in txt or conj,
         "same number of complete descriptors",
         "the counts of complete descriptors on the two sides are not compared")
     req(bool(re.search(r"all\(\(?c0 in s2 for c0 in s1\)?\)", txt)),
